@@ -187,22 +187,62 @@ Proof.
   intros H. injection H as <- _. apply (ag_init_fold st x mo x [] (y0, arrs) (ag_refl x) E).
 Qed.
 
-Lemma run_gens_track_fold body c gens : forall ps,
-  fst (run_gens_track body c gens ps)
-  = fold_left (fun acc gen => rdo ps0 <- acc; run_generation body c None ps0 gen) gens (ROk ps).
+(* two runs agree when both succeed with the same state or both fail (the tracked run post-processes what
+   completed before a failure, so its failure trace is longer and a failing post-processing replaces the error) *)
+Definition res_agree {A} (x y : res A) : Prop :=
+  match x, y with
+  | ROk a, ROk b => a = b
+  | RErr _ _, RErr _ _ => True
+  | _, _ => False
+  end.
+
+Lemma submit_fold_err body c (gen : list mfunc) e tr :
+  fold_left (fun acc f => rdo pt <- acc; rdo r <- submit_func body c None (fst pt) f; ROk (fst r, snd pt ++ [snd r]))
+            gen (RErr e tr) = RErr e tr.
+Proof. induction gen as [|f l IH]; cbn; [reflexivity | exact IH]. Qed.
+
+Lemma submit_gen_track_agree body c gen : forall ps ts,
+  res_agree (submit_gen_track body c ps ts gen)
+            (fold_left (fun acc f => rdo pt <- acc; rdo r <- submit_func body c None (fst pt) f;
+                                     ROk (fst r, snd pt ++ [snd r])) gen (ROk (ps, ts))).
 Proof.
-  induction gens as [|gen rest IH]; intros ps; cbn [run_gens_track fold_left rbind]; [reflexivity|].
-  destruct (run_generation body c None ps gen) as [ps'|e tr]; [apply IH|]. cbn [fst]. now rewrite rfold_err.
+  induction gen as [|f rest IH]; intros ps ts; cbn [submit_gen_track fold_left]; [reflexivity|].
+  cbn [rbind fst snd]. destruct (submit_func body c None ps f) as [r|e tr]; cbn [rbind].
+  - apply IH.
+  - rewrite submit_fold_err. destruct (fold_left _ ts _); exact I.
 Qed.
 
-(* the tracked run is Model/MapResume.map_run_sel without a request *)
+Lemma run_generation_track_agree body c ps gen :
+  res_agree (fst (run_generation_track body c ps gen)) (run_generation body c None ps gen).
+Proof.
+  unfold run_generation_track, run_generation. pose proof (submit_gen_track_agree body c gen ps []) as H.
+  destruct (submit_gen_track body c ps [] gen) as [r|e tr];
+    destruct (fold_left _ gen (ROk (ps, []))) as [r'|e' tr']; cbn in H; try contradiction; cbn [fst rbind].
+  - subst r'. destruct (fold_left _ (snd r) _); cbn; auto.
+  - exact I.
+Qed.
+
+Lemma run_gens_track_fold body c gens : forall ps,
+  res_agree (fst (run_gens_track body c gens ps))
+            (fold_left (fun acc gen => rdo ps0 <- acc; run_generation body c None ps0 gen) gens (ROk ps)).
+Proof.
+  induction gens as [|gen rest IH]; intros ps; cbn [run_gens_track fold_left rbind]; [reflexivity|].
+  pose proof (run_generation_track_agree body c ps gen) as H.
+  destruct (run_generation_track body c ps gen) as [[ps'|e tr] b]; cbn [fst] in H;
+    destruct (run_generation body c None ps gen) as [ps''|e' tr']; cbn in H; try contradiction.
+  - subst ps''. apply IH.
+  - rewrite rfold_err. destruct b; exact I.
+Qed.
+
+(* the tracked run is Model/MapResume.map_run_sel without a request: same result whenever it succeeds, and it fails
+   exactly when map_run_sel fails *)
 Lemma run_gens_track_is_map_run_sel body p inputs user rs shapes :
   all_shapes user inputs p = Ok shapes ->
-  fst (run_gens_track body {| x_p := p; x_inputs := inputs; x_shapes := shapes |} (generations p)
-                      {| p_store := rs; p_out := []; p_tr := [] |})
-  = map_run_sel body p inputs user None rs.
+  res_agree (fst (run_gens_track body {| x_p := p; x_inputs := inputs; x_shapes := shapes |} (generations p)
+                                 {| p_store := rs; p_out := []; p_tr := [] |}))
+            (map_run_sel body p inputs user None rs).
 Proof.
-  intros H. rewrite run_gens_track_fold. unfold map_run_sel. cbn [validate_fixed lift rbind]. rewrite H. reflexivity.
+  intros H. unfold map_run_sel. cbn [validate_fixed lift rbind]. rewrite H. cbn [rbind]. apply run_gens_track_fold.
 Qed.
 
 Section Safe.
